@@ -673,5 +673,6 @@ CLAIM = {
     "note": "Trusted: CPython ast, importlib/getattr inspection of the installed numpy/scipy/matplotlib/netCDF4 (the program itself is not "
             "imported or run). The rank rule covers the Metric.compute family only.",
     "technique": "static analysis: library API existence against installed versions, rank lint, registry/MRO hook exhaustiveness, "
-                 "nullness guard analysis, guard/use contradiction rule, element-type lint on row descriptors (C19.7)",
+                 "nullness guard analysis, guard/use contradiction rule, element-type lint on row descriptors (C19.7); entry-point dispatch from call events "
+                 "(helpers inlined, bound-method locals resolved) and the driver's capability gates by value (surviving axis = None iff documented gate, truth table)",
 }
